@@ -222,4 +222,18 @@ PROPS = {
         "text": "For stranger and anonymous requesters every request must return on the real node exactly what it returns on the database that never contained the private documents (rows as multisets, ordered requests as sequences, commits verbatim). For the reader, whose visibility changes with grants and revocations, each request must equal the owner's result with the currently hidden documents excluded by an explicit _docID filter. Write attempts without permission must leave every private document unchanged.",
         "note": "The incremental twin cannot follow revocations, hence the second oracle for the reader (same node, owner + explicit exclusion). Restarts of an ACP node and subscriptions are not part of this check; the ACP engine dominates the cost (about 2 s per history).",
     },
+    "C16": {
+        "engine": "E4b", "level": "exploration", "design_ref": "DESIGN.md §5 C16", "race": True, "race_replay_caveat": True,
+        "technique": "deterministic simulation: seeded goroutine scheduler at storage-operation granularity (one task released at a time, futex hand-off that is invisible to the race detector), Go race detector, porcupine linearizability check against a sequential per-document model",
+        "rule": ("2-4 task goroutines with 1-3 calls each on one node (update with counter increment, read, delete, create, filtered update, index create+drop, incoming merge with the retry-on-conflict loop); every store operation is a yield point, "
+                 "the task to run next is drawn from the plan's choice sequence; a fourth of the runs let all tasks share one NewConcurrentTxn. non-trivial: >=1 successful call and >20 scheduling decisions; distinct = hash of the release sequence"),
+        "real_vs_stub": "real: DB API, planner, txn layer, badger in-memory (race-instrumented build of everything); the scheduler parks real goroutines at intercepted store operations - who runs is decided by the plan, never by the Go scheduler; not run: net.Peer (its unsynchronised replicator map is not reached by this check)",
+        "assumptions": ASSUME_COMMON + ["the order of a task's own storage operations depends on Go map iteration inside DefraDB and is not under the seed's control; the schedule (which task runs at each step) and the calls' results are",
+                                        "a race report is genuine whenever it appears, but whether the detector still remembers the first access when the second arrives is not decided by the seed: replay repeats the schedule up to 20 times"],
+        "probes": ["sched_steps", "calls_ok", "calls_conflict", "histories_linearizable", "linearizability_inconclusive", "runs_over_step_budget", "foreign_goroutine_store_ops"],
+        "quick": {"count": 20, "budget_s": 90, "workers": 16},
+        "thorough": {"count": 1000000, "budget_s": 1500, "workers": 16},
+        "text": "No data race report with a frame in DefraDB or its dependencies, no panic, and the recorded history (invoke/return stamped with the scheduler's event counter, final reads appended) is linearizable w.r.t. a sequential per-document model in which a call that reported a conflict is a no-op and a successful call has its effect - so counters end at the sum of the successful increments.",
+        "note": "porcupine verdict Unknown (time-out) is counted as inconclusive, never reported. Races whose stacks contain only simulator frames are a harness defect (exit 2). Known findings: lost increments inside a shared concurrent transaction; lazy initialisation race in graphql-go input types.",
+    },
 }
